@@ -1601,4 +1601,78 @@ Proof.
   - eapply HInv_EExit; eauto.
 Qed.
 
+(* executions with the happens-before tracker running alongside *)
+Inductive hrun : list label -> lstate -> ghost -> hb -> Prop :=
+| hrun_nil : hrun [] (init G) ghost0 hb0
+| hrun_snoc : forall tr s g h free e s' f', hrun tr s g h -> step s free e = Some (s', f') ->
+    hrun (tr ++ [e]) s' (ghost_step s g e) (hb_step s h e).
+
+Lemma hrun_lrun : forall tr s g h, hrun tr s g h -> lrun tr s.
+Proof. induction 1; econstructor; eauto. Qed.
+
+Lemma lrun_hrun : forall tr s, lrun tr s -> exists g h, hrun tr s g h.
+Proof.
+  induction 1. do 2 eexists. constructor. destruct IHlrun as [g [h Hh]]. do 2 eexists. econstructor; eauto.
+Qed.
+
+Lemma hrun_inv : forall tr s g h, hrun tr s g h -> Inv s g /\ HInv s g h.
+Proof.
+  induction 1. split. apply Inv_init. apply HInv_init.
+  destruct IHhrun as [I Hh]. split. eapply Inv_step; eauto. eapply HInv_step; eauto.
+Qed.
+
+Inductive dep_plus : nat -> nat -> Prop :=
+| dp_one : forall d a, In d (deps G a) -> dep_plus d a
+| dp_step : forall d x a, dep_plus d x -> In x (deps G a) -> dep_plus d a.
+
+Lemma kok_cone : forall s K, kok s K -> forall a, incl (deps G a) K -> forall d, dep_plus d a -> In d K.
+Proof.
+  intros s K HK a Ha d Hd. induction Hd.
+  - auto.
+  - specialize (IHHd (proj2 (proj2 (HK x (Ha x H))))). assumption.
+Qed.
+
+(* results_read_after_write: when a handler starts an action (the point where it reads the failed flags and,
+   in exec, the results of its dependencies), the write of the result of every direct or transitive
+   dependency happens before that point; and only writes that have occurred are known. *)
+Theorem results_read_after_write_level : forall tr s g h free a s' f', hrun tr s g h -> step s free (EStart a) = Some (s', f') ->
+  forall d, dep_plus d a -> In d (kt h a) /\ get (dn s) d = true.
+Proof.
+  intros tr s g h free a s' f' Hr H d Hd. destruct (hrun_inv _ _ _ _ Hr) as [I Hh]. destr_step H. name_th.
+  assert (In d (kt h a)). { eapply kok_cone. apply (h_kt _ _ _ Hh a). eapply (h_th _ _ _ Hh); eauto. assumption. }
+  split. assumption. apply (h_kt _ _ _ Hh a d H).
+Qed.
+
+(* a dependency-closed set that contains the root's dependencies contains every action *)
+Lemma kok_all : forall s K, kok s K -> incl (deps G (root G)) K -> forall a, In a (nodes G) -> In a K.
+Proof.
+  intros s K HK Hr.
+  assert (forall k a, In a (nodes G) -> rank G a + k = length (nodes G) -> In a K).
+  { induction k using lt_wf_ind. intros a Hn Hk.
+    assert (Ha : In a (alln G)) by (right; assumption).
+    pose proof (wf_tne G WF a Hn) as Ht. destruct (trig G a) as [| b ts] eqn:E; try congruence.
+    assert (Hbt : In b (trig G a)) by (rewrite E; left; reflexivity).
+    assert (Hb : In b (alln G)) by (eapply (wf_tin G WF); eauto).
+    assert (Hab : In a (deps G b)) by (apply (trig_deps G WF a b Ha Hb); assumption).
+    destruct (alln_cases G WF b Hb) as [-> | [Hbn Hbr]].
+    - apply Hr. assumption.
+    - pose proof (rank_deps G WF b Hb a Hab) as Hlt.
+      assert (Hle : rank G b <= length (nodes G)). { unfold rank. destruct (b =? root G). lia. apply idx_le. }
+      assert (In b K). { apply (H (length (nodes G) - rank G b)); auto; lia. }
+      apply (proj2 (proj2 (HK b H0))). assumption. }
+  intros a Ha. assert (Hle : rank G a <= length (nodes G)). { unfold rank. destruct (a =? root G). lia. apply idx_le. }
+  apply (H (length (nodes G) - rank G a)); auto. lia.
+Qed.
+
+(* when the loop has ended, the writes of all results happen before the loop thread's subsequent reads *)
+Theorem final_reads_after_writes_level : forall tr s g h, hrun tr s g h -> final s = true ->
+  forall a, In a (nodes G) -> In a (km h) /\ get (dn s) a = true.
+Proof.
+  intros tr s g h Hr Hf a Ha. destruct (hrun_inv _ _ _ _ Hr) as [I Hh].
+  assert (Hm : mainp s = MDone). { unfold final in Hf. destruct (mainp s); try discriminate. reflexivity. }
+  destruct (h_done _ _ _ Hh Hm) as [Hc Hi].
+  assert (In a (km h)). { apply Hi. eapply kok_all; eauto. apply (h_kcl _ _ _ Hh). apply (h_closed _ _ _ Hh). assumption. }
+  split. assumption. apply (h_km _ _ _ Hh a H).
+Qed.
+
 End LevelProofs.
